@@ -17,6 +17,9 @@ pub enum MA {
     St { x: i64, s: String },
     #[serde(rename = "a.Opt")]
     Opt { o: Option<i64> },
+    /// the widest integers (what a decoder that buffers the members in a generic tree tends to lose)
+    #[serde(rename = "a.Wide")]
+    Wide { u: u128, i: i128, f: f64 },
 }
 
 #[derive(Debug, Serialize, Deserialize, PartialEq)]
@@ -205,7 +208,12 @@ where
             }
             rep.eval(vnet::fnv(format!("{name}{d}").as_bytes()));
             let replay = json!({"monitor": "c05", "part": "call-decode", "method_type": name, "doc": d});
-            let want_m = decode_plain(doc(&plain).as_bytes());
+            // the reference: the same document, members in the same order, without the flags (for most types the
+            // order does not matter; serde's buffering of an adjacently tagged enum whose content comes first does
+            // not carry 128-bit integers, with or without zlink)
+            let _ = &plain;
+            let plain_p: Vec<(String, String)> = p.iter().filter(|(k, _)| !["oneway", "more", "upgrade"].contains(&k.as_str())).cloned().collect();
+            let want_m = decode_plain(doc(&plain_p).as_bytes());
             match (decode_call(d.as_bytes()), want_m) {
                 (Ok((m, o, mo, u)), Ok(wm)) => {
                     if (o, mo, u) != (st[0] == 2, st[1] == 2, st[2] == 2) {
@@ -488,6 +496,8 @@ pub fn run(cfg: &Cfg) -> Report {
             encode_case(&mut rep, "MA::Unit", MA::Unit, set);
             encode_case(&mut rep, "MA::St", MA::St { x: -5, s: "é\"\n".into() }, set);
             encode_case(&mut rep, "MA::Opt(None)", MA::Opt { o: None }, set);
+            // (the reference goes through serde_json::Value, which holds 64-bit integers at most)
+            encode_case(&mut rep, "MA::Wide", MA::Wide { u: u64::MAX as u128, i: i64::MIN as i128, f: -2.5 }, set);
             encode_case(&mut rep, "MB::Bor", MB::Bor { s: "borrowed", n: 7 }, set);
             encode_case(&mut rep, "MStrict", MStrict { method: "s.M".into(), parameters: PStrict { a: 1 } }, set);
             // method types that serialize as a map rather than a struct (generic clients): a JSON value, a string-keyed
@@ -507,6 +517,7 @@ pub fn run(cfg: &Cfg) -> Report {
         ("MA::St", vec![("method", "\"a.St\""), ("parameters", "{\"x\":3,\"s\":\"t\"}")]),
         ("MA::St-wrong", vec![("method", "\"a.St\""), ("parameters", "{\"x\":\"3\"}")]),
         ("MA::Opt", vec![("method", "\"a.Opt\""), ("parameters", "{\"o\":null}")]),
+        ("MA::Wide", vec![("method", "\"a.Wide\""), ("parameters", "{\"u\":340282366920938463463374607431768211455,\"i\":-170141183460469231731687303715884105728,\"f\":1e300}")]),
         ("MB::Bor", vec![("method", "\"b.Bor\""), ("parameters", "{\"s\":\"plain\",\"n\":1}")]),
         ("MStrict", vec![("method", "\"s.M\""), ("parameters", "{\"a\":1}")]),
         ("service", vec![("method", "\"org.varlink.service.GetInterfaceDescription\""), ("parameters", "{\"interface\":\"a.b\"}")]),
@@ -533,7 +544,8 @@ pub fn run(cfg: &Cfg) -> Report {
     for k in 0..cfg.n(if miri { 40 } else { 200_000 }, 4_000_000) {
         let set = rng.below(8);
         let (o, m, u) = flags_of(set);
-        let method = match rng.below(3) {
+        let method = match rng.below(4) {
+            3 => MA::Wide { u: (rng.next_u64() as u128) << (rng.below(65) as u32) | rng.next_u64() as u128, i: ((rng.next_u64() as i128) << (rng.below(64) as u32)).wrapping_neg(), f: (rng.next_u64() >> 40) as f64 / 8.0 },
             0 => MA::Unit,
             1 => MA::St { x: rng.next_u64() as i64, s: format!("v{k}\"\\") },
             _ => MA::Opt { o: if rng.chance(1, 2) { Some(3) } else { None } },
